@@ -110,7 +110,10 @@ impl SourceFileAnalyzer {
                         defines_basic_line = true;
                     }
                 }
-                Err(err) => self.messages.push(DiagnosticMessage::Error(i, err.into())),
+                Err(err) => {
+                    source_line_ranges.tokenization_error_range = Some(err.string_range_in(line));
+                    self.messages.push(DiagnosticMessage::Error(i, err.into()))
+                }
             }
             self.source_file_map
                 .add(basic_line_number, source_line_ranges, defines_basic_line);
